@@ -245,9 +245,51 @@ def match_known(pid, viol):
     return None
 
 
+def start_hang_watchdog(pid, tier, t0):
+    """a daemon thread: when the implementation has been inside ONE call for longer than the allowance (no heartbeat from the
+    stream / oracle that called it), report the call as the failing input and end the process - an endless loop in the code under
+    test cannot be interrupted from inside (it may even swallow alarms with `except BaseException`)"""
+    import threading
+    import common
+
+    def watch():
+        while True:
+            time.sleep(5)
+            h = common.HEART
+            if not h["armed"] or h["t"] is None:
+                continue
+            allow = h.get("allow") or common.HANG_S * (2 if tier == "thorough" else 1)
+            idle = time.time() - h["t"]
+            if idle <= allow:
+                continue
+            payload = {"property": pid, "violations": [{
+                "kind": "the implementation does not return",
+                "what": h["what"], "seconds_without_return": round(idle), "allowance_s": allow,
+                "input": h["detail"],
+                "note": "the Lean model answers this input at once (every model function is total); the implementation was still "
+                        "inside this one call when the allowance ran out. Replay: run the script / case under `input`."}]}
+            try:
+                path = write_replay(pid, f"hang_{SEED}", payload)
+                write_evidence(pid, tier, "proof", {
+                    "obligations": 0, "discharged": 0, "evaluations": 1, "distinct_nontrivial": 0,
+                    "rule": "hang watchdog: the check ended because one implementation call did not return",
+                    "samples": [h["what"]], "exhaustive": False, "broken_obligations": ["implementation call does not return: " + str(h["what"])],
+                    "checker_cmd": "n/a (run ended by the hang watchdog)", "trusted_base": TRUSTED_BASE, "theorems": [], "headline": [],
+                }, INDEX[pid].get("assumptions", []), time.time() - t0, violations=1)
+            except BaseException as e:     # noqa
+                path = f"(could not write the replay: {e})"
+            # the call may be running under contextlib.redirect_stdout: write to the real stdout
+            sys.__stdout__.write(f"VIOLATION property={pid} replay={path}\n")
+            sys.__stdout__.flush()
+            os._exit(1)
+    th = threading.Thread(target=watch, name="hang-watchdog", daemon=True)
+    th.start()
+
+
 def run_property(pid, tier):
     t0 = time.time()
     _TIER[0] = tier
+    start_hang_watchdog(pid, tier, t0)
     cfg = INDEX[pid]
     res = {"broken": []}
     violations = []      # (replay payload)
@@ -268,6 +310,8 @@ def run_property(pid, tier):
     import covmon
     cov_on = covmon.start(REPO)
     # 3 correspondence
+    import common
+    common.arm(True)
     mism = corr_step(pid, cfg, res, tier, False)
     deep = bool(res["broken"]) or bool(res["source_changed"])
     # 4 oracle
@@ -286,6 +330,7 @@ def run_property(pid, tier):
         res["oracle"] = {k: o[k] for k in o if k not in ("violations", "known")}
         res["oracle"]["violations"] = len(o.get("violations", []))
         res["oracle"]["known"] = len(o.get("known", []))
+    common.arm(False)
     if cov_on:
         covmon.stop()
         files = sorted(set(srcshape.anchors().get(pid, [])) | set(srcshape.EXTRA.get(pid, [])))
@@ -335,6 +380,8 @@ def run_property(pid, tier):
         "leanchecker": res.get("leanchecker"), "source_changed": res.get("source_changed", []),
         "impl_line_coverage": res.get("impl_coverage", {}),
         "known_findings_printed": sorted(set(known_lines)),
+        "hang_watchdog": {"allowance_s": common.HANG_S * (2 if tier == "thorough" else 1),
+                          "longest_step_s": round(common.HEART.get("maxgap", 0.0), 1), "longest_step": common.HEART.get("maxgap_what")},
     }
     write_evidence(pid, tier, "proof", cov, cfg.get("assumptions", []), wall, violations=len(violations))
     log(f"{pid} {tier}: obligations {cov['obligations']} discharged {cov['discharged']}, corr evals {res.get('corr_evaluations', 0)} mismatches {res.get('corr_mismatches', 0)}, "
@@ -354,6 +401,17 @@ def do_replay(path):
     except ModuleNotFoundError:
         mod = None
     for v in data.get("violations", []):
+        sc = (v.get("input") or {}).get("script_up_to_the_command_that_does_not_return") if isinstance(v.get("input"), dict) else None
+        if sc:
+            # a hang found by the watchdog: run the script on the implementation in a child process with the same allowance
+            code = "import sys, json; sys.path.insert(0, %r); import impl; impl.run_impl(json.load(sys.stdin)); print('returned')" % os.path.dirname(os.path.abspath(__file__))
+            try:
+                r = subprocess.run([PY, "-c", code], input=json.dumps(sc), text=True, stdout=subprocess.PIPE, stderr=subprocess.PIPE,
+                                   timeout=float(v.get("allowance_s", 150)))
+                out.append({"hang": False, "reproduced": False, "stdout": r.stdout[-200:]})
+            except subprocess.TimeoutExpired:
+                out.append({"hang": True, "reproduced": True})
+            continue
         if "replay_script" in v:
             r = subprocess.run([PY, v["replay_script"], REPO])
             out.append({"script": v["replay_script"], "exit": r.returncode})
